@@ -102,6 +102,10 @@ func (g *Gen) ttlts() (uint32, uint64) {
 		return 4000000000, uint64(1700000000) // live for decades
 	case 3:
 		return 0, 5 // persistent, odd timestamp
+	case 4:
+		if g.r.Bool() {
+			return 60, uint64(4102444800) // timestamp in the future (2100) with a short TTL: live
+		}
 	}
 	return 0, uint64(1700000000)
 }
@@ -355,7 +359,7 @@ func (g *Gen) zsetOp(write bool) {
 			sel := g.r.Intn(10)
 			switch {
 			case sel < 7:
-				g.add("zadd %s %s %d %s", hb, zk, len(zk)%4, hx([]byte("v"+zk)))
+				g.add("zadd %s %s %s %s", hb, zk, g.score(), hx(g.val()))
 			case sel < 9:
 				g.add("zrem %s %s", hb, zk)
 			default:
@@ -541,7 +545,8 @@ func runHistory(st *St, p Profile, open string, body []string) (results []string
 			after := doObs()
 			for i := range before {
 				if i < len(after) && before[i] != after[i] {
-					if merged && after[i] == "err" && isEmptyAnswer(before[i]) {
+					if merged && ((after[i] == "err" && isEmptyAnswer(before[i])) ||
+						(i > 0 && strings.HasPrefix(obs[i], "shaskey ") && before[i] == "bool 1" && before[i-1] == "list")) {
 						emit("#KNOWN F30 after Merge and reopen the empty structure read by %q answers 'not found' (before: %q)", obs[i], before[i])
 						continue
 					}
